@@ -164,6 +164,15 @@ def riemann_runs(ctx, rng, idx):
     mesh, mdesc = gen.mesh1d(rng, kind="uni", ncell=n)
     bc = str(rng.choice(["per", "sym"]))
     prim, kind = _data(rng, n, eqn, model)
+    intdata = bool(rng.random() < 0.1)
+    if intdata:
+        # integer-typed admissible data (a user writing np.where(x < .5, 10, 1)): gas/water at rest with integer density, pressure, depth
+        # jumps; the field keeps the integer type of its first variable
+        cut = int(rng.integers(0, n + 1))
+        lo, hi = int(rng.integers(1, 4)), int(rng.integers(2, 12))
+        a = np.where(np.arange(n) < cut, hi, lo)
+        prim = [a, np.zeros(n, dtype=int), np.where(np.arange(n) < cut, int(rng.integers(1, 12)), int(rng.integers(1, 4)))] if eqn == "euler" else [a, np.zeros(n, dtype=int)]
+        kind = "integer-typed two-state at rest"
     disc = md.fvm(model, mesh, xnum.extrapol1(), numflux=flux, bcL={"type": bc}, bcR={"type": bc})
     f = gen.fdata_prim(model, mesh, prim)
     cfl = 0.5 if rng.random() < 0.3 else float(rng.uniform(0.05, 0.5))
@@ -181,6 +190,11 @@ def riemann_runs(ctx, rng, idx):
     EXPECT["global"] = True
     try:
         solver.solve(f, cfl, stop={"maxit": nstep})
+    except TypeError as e:
+        if not (intdata and gen.refused_integer_field(e)):
+            raise
+        ctx.skip("case:integer-typed-field-refused-by-numpy-casting-rule")
+        ctx.info["integer_typed_fields_refused_loudly"] = ctx.info.get("integer_typed_fields_refused_loudly", 0) + 1
     finally:
         EXPECT["global"] = False
     ctx.nontrivial("pos", mname, flux, bc, iname, cfl, nstep, prim)
